@@ -163,6 +163,7 @@ type analyzer struct {
 	byObj   map[*types.Func]*fn
 	cfg     Config
 	sorters map[string]bool
+	derived map[*fn]int // (S1) functions that sort one of their slice parameters: its index (-1: none)
 	pureOK  map[string]bool
 	sites   []*site
 	// taint of local slice variables: object -> origin description (flow-insensitive start position)
